@@ -6,7 +6,7 @@
    (Props/C07), zero-TP results (Props/C08), bookkeeping and sq/rq/pq (Props/C02), metric formulas
    (Props/C06), validity/uniqueness of the matching (Props/C03), relabelling (Props/C04). *)
 From Pan Require Import Base.Common Base.Rnd64 Model.MetricTable Model.EdgeCase Model.Metrics Model.Matcher Model.Merge Model.Relabel Model.Result
-  Model.Pipeline Proofs.Matching Proofs.MatcherQ Proofs.C04Proofs Proofs.C01Proofs Proofs.PipelineFacts.
+  Model.Pipeline Model.ZeroCase Proofs.Matching Proofs.MatcherQ Proofs.C04Proofs Proofs.C01Proofs Proofs.PipelineFacts Proofs.C01EndToEnd.
 Open Scope Z_scope.
 
 (* 1. matching phase: never raises; relabels with a matching M that is a conflict-free, sound,
@@ -54,6 +54,32 @@ Theorem C01_unique_answer : forall decr m2o thr (cs M M' : list qcand),
   valid Q (better_eq decr) (fun s => beats decr s thr) m2o cs M' ->
   forall c, In c M <-> In c M'.
 Proof. exact naive_match_unique. Qed.
+
+(* 7. END TO END, unmatched instance input, threshold matcher (one-to-one or many-to-one), any matching metric,
+      any threshold, IoU/Dice as evaluated metrics, optional decision metric/threshold, any handler:
+      whatever the pipeline returns is explained by a valid best-first matching M of the overlapping pairs:
+      the true positives are the matched references that pass the decision threshold, each per-TP list holds
+      exactly their set-definition scores against the union of the predictions assigned to them, tp/fp/fn count
+      accordingly (sq/rq/pq then follow by Props/C02, uniqueness of M without ties by theorem 6) *)
+Theorem C01_end_to_end : forall x c a r,
+  nonneg_arr a -> (c_matcher c = 1 \/ c_matcher c = 2) -> overlap_only (c_ems c) ->
+  zero_case (n_pred_inst a) (n_ref_inst a) = None -> pipeline x c a = Ok r ->
+  let decr := decreasing (c_mmetric c) in let m2o := c_matcher c =? 2 in
+  let cs := cand_list x (c_mmetric c) a in
+  exists M,
+    P1 Q m2o M /\ P2 Q (fun s => beats decr s (c_mthr c)) cs M /\
+    P3 Q (fun s => beats decr s (c_mthr c)) m2o cs M /\
+    P4 Q (better_eq decr) (fun s => beats decr s (c_mthr c)) m2o cs M /\
+    let L := lmap_of M in let a' := map_instance_labels L a in
+    (forall l, In l (matched_labels a') <-> exists p, In (p, l) L) /\
+    let score := fun (m : metric) (l : Z) =>
+       match m with DSC => dice (Some (l, preds_of l L)) a | _ => iou (Some (l, preds_of l L)) a end in
+    let TP := filter (fun l => passes_decision (c_dm c) (c_dthr c) (fun m => score m l)) (matched_labels a') in
+    (zero_case (n_pred_inst a') (n_ref_inst a') = None ->
+       o_tp r = Z.of_nat (length TP) /\
+       (forall mr, In mr (o_metrics r) -> m_all mr = map (score (m_metric mr)) TP) /\
+       o_fp r = n_pred_inst a' - o_tp r /\ o_fn r = n_ref_inst a - o_tp r).
+Proof. exact end_to_end_overlap. Qed.
 
 (* non-vacuity: the README example shape: two references, prediction 7 overlaps reference 1 (IoU 1/2), prediction 9 is spurious *)
 Example C01_nonvacuous :
